@@ -48,6 +48,12 @@ def lvalues_written(st):
     return out
 
 
+# stdio calls that take a FILE*: POSIX requires every such call to behave as if bracketed by flockfile()/funlockfile(),
+# the FILE object belongs to libc (not to the library or a parser), and what is printed is not a transaction or a callback.
+# Only the HTP_DEBUG configuration has them (trace output to stderr).  A direct store through the stream pointer is still reported.
+STDIO_LOCKED = ('fprintf', 'vfprintf', 'fputc', 'fputs', 'fwrite', 'fflush', 'putc')
+
+
 def writes_through_alias(db, gname):
     """Follow the address of global `gname` through parameters, locals and record fields
     (flow-insensitive may-alias closure) and return every store made through an alias.
@@ -122,7 +128,7 @@ def writes_through_alias(db, gname):
                     for ai in WRITES_ARG[cal]:
                         if ai < len(c['args']) and tainted(f, c['args'][ai]):
                             writes.append((f.name, c))
-                elif cal and cal not in db.fn and cal not in ('memcmp', 'strlen', 'strcmp', 'strncmp', 'memchr', 'strchr', 'free'):
+                elif cal and cal not in db.fn and cal not in ('memcmp', 'strlen', 'strcmp', 'strncmp', 'memchr', 'strchr', 'free') + STDIO_LOCKED:
                     if any(tainted(f, a) for a in c['args']):
                         writes.append((f.name, c))
     return writes, holders
